@@ -309,7 +309,7 @@ def worker(acc, shard, nshards, tier, seed):
             continue
         T = [[v * scale for v in row] for row in T0]
         merges = 0
-        mds = (inf, 2.5 * scale, 1.5 * scale, 0.5 * scale) if n <= 4 else (inf, 1.5 * scale)
+        mds = (inf, 2.5 * scale, 1.5 * scale, 0.5 * scale, 0.0) if n <= 4 else (inf, 1.5 * scale, 0.0)   # 0.0: a bound that is falsy (seed C15h)
         hookss = ((), ('weight',), ('order',), ('order', 'weight')) if n <= 4 else ((), ('order', 'weight'))
         for md in mds:
             for hooks in hookss:
@@ -338,7 +338,7 @@ def worker(acc, shard, nshards, tier, seed):
             if n >= 3 and (idx // nshards) % (1 if tier == 'thorough' else 3) == 0:
                 # thresholds: in the gaps between the distinct pair distances, exactly on a pair distance (dyadic: exact), below and above all
                 ds = sorted(set(oracles.dtw_ref(coll[r], coll[c]) for r in range(n) for c in range(r + 1, n)))
-                ths = [inf] + [(a + b) / 2.0 for a, b in zip(ds, ds[1:])] + [d for d in ds if d > 0 and (d * 2).is_integer()][:2] + [ds[0] / 2.0 if ds[0] > 0 else 0.25]
+                ths = [inf, 0.0] + [(a + b) / 2.0 for a, b in zip(ds, ds[1:])] + [d for d in ds if d > 0 and (d * 2).is_integer()][:2] + [ds[0] / 2.0 if ds[0] > 0 else 0.25]
                 for m1, m2 in itertools.permutations(ths[:4], 2):
                     for use_c in (False, True):
                         check_real_history(acc, np, hier, dtw, coll, use_c, m1, m2)
